@@ -14,6 +14,7 @@ import (
 	"net"
 	"sync"
 	"testing/synctest"
+	"time"
 
 	"cell2verif/node"
 
@@ -34,6 +35,8 @@ type cli interface {
 	Closed() bool
 	NetId() uint32
 	Close()
+	Handshake() bool
+	Ack() bool
 }
 
 type pipeConn struct{ net.Conn }
@@ -78,6 +81,9 @@ type faultConn struct {
 	mu      sync.Mutex
 	failN   int
 	partial bool
+	lagSkip int           // writes to let through before the lag starts
+	lagN    int           // the next lagN writes each take lagD (virtual time) before they reach the wire
+	lagD    time.Duration
 }
 
 func (f *faultConn) Write(b []byte) (int, error) {
@@ -86,7 +92,19 @@ func (f *faultConn) Write(b []byte) (int, error) {
 	if fail {
 		f.failN--
 	}
+	var lag time.Duration
+	if !fail {
+		if f.lagSkip > 0 {
+			f.lagSkip--
+		} else if f.lagN > 0 {
+			f.lagN--
+			lag = f.lagD
+		}
+	}
 	f.mu.Unlock()
+	if lag > 0 {
+		time.Sleep(lag) // a slow link: whoever writes this packet is held up; nobody else is
+	}
 	if !fail {
 		return f.Conn.Write(b)
 	}
@@ -207,6 +225,20 @@ func (c *gclient) Packet(m *message.Message) []byte {
 func (c *gclient) Open() bool {
 	return c.sendPacket(packet.Handshake, []byte(`{"sys":{"platform":"verif","libVersion":"0","clientBuildNumber":"0","clientVersion":"0"},"user":{}}`)) &&
 		c.sendPacket(packet.HandshakeAck, nil)
+}
+
+// Handshake / Ack: protocol packets a client may repeat on a working connection
+func (c *gclient) Handshake() bool {
+	return c.sendPacket(packet.Handshake, []byte(`{"sys":{"platform":"verif","libVersion":"0","clientBuildNumber":"0","clientVersion":"0"},"user":{}}`))
+}
+
+func (c *gclient) Ack() bool { return c.sendPacket(packet.HandshakeAck, nil) }
+
+// lag: after skip more writes, the next n writes of the server side each take d.
+func (c *gclient) lag(skip, n int, d time.Duration) {
+	c.fc.mu.Lock()
+	c.fc.lagSkip, c.fc.lagN, c.fc.lagD = skip, n, d
+	c.fc.mu.Unlock()
 }
 
 func (c *gclient) Take() []node.Msg {
